@@ -18,14 +18,55 @@ fn main() {
         ("true", Value::from(true)),
         ("none", Value::from(())),
         ("[1]", Value::from(vec![Value::from(1)])),
+        ("9223372036854775807", Value::from(i64::MAX)),
+        ("0.0", Value::from(0.0)),
+        ("false", Value::from(false)),
     ];
     let ops = [("Add", "+"), ("Sub", "-"), ("Mul", "*"), ("Div", "/"), ("IntDiv", "//"), ("Rem", "%"), ("Pow", "**"), ("StringConcat", "~"), ("In", "in")];
     let env = Environment::new();
+    // unary operators and the boolean operators the folder re-implements
+    let probe = |e: &str| format!("{{{{ {e} }}}}|{{{{ ({e}) is string }}}}|{{{{ ({e}) is number }}}}|{{{{ ({e}) is boolean }}}}|{{{{ 1 / ({e}) if ({e}) is number and ({e}) == 0 else 0 }}}}");
+    for (name, shape) in [("Neg", "-(A)"), ("Not", "not (A)")] {
+        let mut bad = None;
+        for (la, va) in &operands {
+            let lit = env.render_str(&probe(&shape.replace("A", la)), ()).map_err(|e| format!("{:?}", e.kind()));
+            let var = env.render_str(&probe(&shape.replace("A", "a")), context! { a => va.clone() }).map_err(|e| format!("{:?}", e.kind()));
+            if lit != var {
+                bad = Some(format!("{}: literals give {:?}, variables give {:?}", shape.replace("A", la), lit, var));
+                break;
+            }
+        }
+        println!("{}", serde_json::json!({"op": name, "symbol": shape, "ok": bad.is_none(), "detail": bad.unwrap_or_else(|| "all operands agree".into())}));
+    }
+    for (name, shape) in [("AndOr", "A and B or C"), ("OrAnd", "(A or B) and C"), ("And", "A and B"), ("Or", "A or B"), ("AndNot", "A and not B or C")] {
+        let small: Vec<&(&str, Value)> = operands.iter().filter(|(l, _)| ["0", "1", "2", "\"\"", "\"a\"", "none", "false"].contains(l)).collect();
+        let mut bad = None;
+        'o: for (la, va) in &small {
+            for (lb, vb) in &small {
+                for (lc, vc) in &small {
+                    let lit_e = shape.replace("A", la).replace("B", lb).replace("C", lc);
+                    let lit = env.render_str(&format!("{{{{ {lit_e} }}}}"), ()).map_err(|e| format!("{:?}", e.kind()));
+                    let var = env
+                        .render_str(&format!("{{{{ {} }}}}", shape.replace("A", "a").replace("B", "b").replace("C", "c")), context! { a => va.clone(), b => vb.clone(), c => vc.clone() })
+                        .map_err(|e| format!("{:?}", e.kind()));
+                    if lit != var {
+                        bad = Some(format!("{}: literals give {:?}, variables give {:?}", lit_e, lit, var));
+                        break 'o;
+                    }
+                }
+            }
+        }
+        println!("{}", serde_json::json!({"op": name, "symbol": shape, "ok": bad.is_none(), "detail": bad.unwrap_or_else(|| "all operand triples agree".into())}));
+    }
     for (name, op) in ops {
         let mut bad = None;
         let mut n = 0;
         'outer: for (la, va) in &operands {
             for (lb, vb) in &operands {
+                // a list repeated 2^63-1 times is a lazily repeated sequence that cannot be printed in finite time
+                if op == "*" && (*la == "[1]" || *lb == "[1]") && (la.len() > 10 || lb.len() > 10) {
+                    continue;
+                }
                 n += 1;
                 let probe = |e: &str| format!("{{{{ {e} }}}}|{{{{ ({e}) is string }}}}|{{{{ ({e}) is number }}}}|{{{{ ({e}) is sequence }}}}");
                 let lit = env.render_str(&probe(&format!("({la}) {op} ({lb})")), ()).map_err(|e| format!("{:?}", e.kind()));
